@@ -351,7 +351,7 @@ func vh_C02_int() {
 	}
 }
 
-var vhRegistry = map[string]func(){"vh_C02_int": vh_C02_int, "vv_models": vv_models, "vv_arith": vv_arith}
+var vhRegistry = map[string]func(){"vh_C02_int": vh_C02_int, "vh_C02_float": vh_C02_float, "vh_C02_string": vh_C02_string, "vv_models": vv_models, "vv_arith": vv_arith}
 
 var vhIntVars = map[string]*int{"vhKind": &vhKind, "vhOp": &vhOp, "vhForm": &vhForm, "vhCntInt": &vhCntInt, "vhBranch": &vhBranch}
 
